@@ -966,7 +966,15 @@ def settings(ctx):
                 "--keep/--exact/--inexact, -r 12%, 30% an explicit --vro of 1-6 words out of version version! versionExpr "
                 "current stable beta mine ut2 latest warn warn:2 warn:0 type:exact commandLine path keep bogus t, a file "
                 "name, file:name of an existing and of a missing file; requests as before plus 12% LOCAL:dir (existing or "
-                "not; walk only); both look-up modes; 46 directed requests over three directed worlds")
+                "not; walk only); both look-up modes; 46 directed requests over three directed worlds; family seq "
+                "(harness/c03seq.py): histories put to ONE long-lived Eups instance, with and without the product cache - a "
+                "two-stack database restricted to one or two products, without dangling chain entries (25% with the tag of the history assigned in the second "
+                "stack only, 10% nowhere), options as before with the tag of the history among -t (45%) or -T (35%), and 1-3 "
+                "rounds of 1-2 changes made through the instance followed by an ask: assignTag 40% / unassignTag 25% / "
+                "declare 20% (60% with tag=) / undeclare 15%, the stack argument omitted in 60%; an ask is findProductFromVRO "
+                "(through the instance, with noCache=True, and in half of the cases on a new instance), findTaggedProduct for "
+                "current stable beta t latest, findProduct of a named version; 40% closed by a real Eups.setup on the instance; "
+                "every answer is judged on the database view read back from the files at that step; 8 directed histories")
     ctx.trusted_base = common.COMMON_TRUSTED + [
         "harness/c03.py extract_hooks/extract_taggroups: python ast -> coq/Generated/Config.v, fail-closed (any "
         "non-literal or repeated assignment to the watched config.Eups attributes aborts the check)",
@@ -975,6 +983,11 @@ def settings(ctx):
         "family ext: os.path.isfile / os.path.exists enter the model as the lists w_files / w_dirs of the case; the "
         "lines of a tag file are given to the model as the harness wrote them; the word BASE of a case is replaced by "
         "the scratch directory on the implementation side only",
+        "family seq: the database as it is now is read back from the version files and chain files of the stacks with "
+        "eups.db.VersionFile / ChainFile after every event; the changes are modelled for the flavor of the instance "
+        "(coq/Model/ResolveSeq.v) and the model's view is compared with the files at every ask; an instance without the "
+        "product cache takes every product for new in Eups.declare (findProducts reads the cache only), so for it an "
+        "untagged declare is given to the model as a declare with tag=current",
         "hooks.version_cmp / Eups.version_match enter the model as parameters; the first family of cases runs the "
         "extracted model with a dotted-numeric comparator and one-term expressions and keeps its version names inside "
         "that fragment (1.0 1.1 2.0 10.0); the family versions runs it with the comparator and the matcher of C10 "
@@ -996,6 +1009,11 @@ def settings(ctx):
         "lines, comments and empty lines - setupRequired(...) lines, relational expressions and LOCAL: versions inside a "
         "tag file are outside the model (Err Undefined, counted); no file is called keep or type:x; LOCAL: versions are "
         "compared for findProductFromVRO only, not for Eups.setup (which builds the product from the directory itself)",
+        "family seq: a history starts from a database that eups commands can produce - every chain entry names a version "
+        "declared for that flavor in that stack (C06 no_dangling_tag) - and stays there: the changes keep it so",
+        "family seq: changes are made through the instance that is asked (another process changing the files under a "
+        "live instance is the subject of the cache properties, not of this family); products without directory and table "
+        "(declare with none none); global tags only; the closing setup is the last event of a history",
         "walk_x_is_designation: wf_dbx, total_order_on, no file called keep, a relational request does not begin with "
         "LOCAL:; resolve_is_designation_user_tags and user_pretag_overrides: worlds of stacks only (plain_world)",
         "walk_is_designation and its corollaries: wf_db (no version name is itself a relational expression, no chain "
@@ -1020,7 +1038,7 @@ def run(ctx):
     rng = ctx.rng
     groups = [case_to_group(c) for c in corpus_groups()]
     ncorpus = len(groups)
-    ndb = ctx.size(440, 6000)
+    ndb = ctx.size(400, 6000)
     nreq = ctx.size(20, 30)
     for _ in range(ndb):
         groups.append(gen_group(rng, nreq))
@@ -1041,6 +1059,9 @@ def run(ctx):
     # user tags, --vro, LOCAL: versions / -r, tag files (harness/c03ext.py, coq/Model/ResolveExt.v)
     import c03ext
     c03ext.run_ext(ctx)
+    # histories on one long-lived instance: resolve / change / resolve (harness/c03seq.py, coq/Model/ResolveSeq.v)
+    import c03seq
+    c03seq.run_seq(ctx)
 
 
 def replay(ctx, path):
@@ -1057,6 +1078,9 @@ def replay(ctx, path):
     elif c.get("family") == "ext":
         import c03ext
         c03ext.compare_groups(ctx, [c03ext.case_to_group(c)], label="replay")
+    elif c.get("family") == "seq":
+        import c03seq
+        c03seq.compare_cases(ctx, [c], label="replay")
     else:
         compare_groups(ctx, [case_to_group(c)], label="replay")
     bad = [f for f in ctx.failures if not ctx._known(f)] or ctx.disagreements
